@@ -29,18 +29,21 @@ def default : Attrs := {}
 def bold (a : Attrs) : Bool := a.intensity == .bold
 def dim (a : Attrs) : Bool := a.intensity == .dim
 
+/-- the `term::Attrs` builder `write_escape_code_diff` fills in: one field per differing component -/
+def diffBuilder (self other : Attrs) : Term.SgrAttrs :=
+  let a : Term.SgrAttrs := {}
+  let a := if self.fg == other.fg then a else { a with fg := some self.fg }
+  let a := if self.bg == other.bg then a else { a with bg := some self.bg }
+  let a := if self.intensity == other.intensity then a else { a with intensity := some self.intensity }
+  let a := if self.italic == other.italic then a else { a with italic := some self.italic }
+  let a := if self.underline == other.underline then a else { a with underline := some self.underline }
+  let a := if self.inverse == other.inverse then a else { a with inverse := some self.inverse }
+  a
+
 /-- `Attrs::write_escape_code_diff(self, contents, other)`: the bytes appended. -/
 def writeEscapeCodeDiff (self other : Attrs) : List Nat :=
   if self != other && self == Attrs.default then Term.clearAttrs
-  else
-    let a : Term.SgrAttrs := {}
-    let a := if self.fg == other.fg then a else { a with fg := some self.fg }
-    let a := if self.bg == other.bg then a else { a with bg := some self.bg }
-    let a := if self.intensity == other.intensity then a else { a with intensity := some self.intensity }
-    let a := if self.italic == other.italic then a else { a with italic := some self.italic }
-    let a := if self.underline == other.underline then a else { a with underline := some self.underline }
-    let a := if self.inverse == other.inverse then a else { a with inverse := some self.inverse }
-    a.write
+  else (diffBuilder self other).write
 
 end Attrs
 
